@@ -332,6 +332,7 @@ func init() {
 					checkSort(t, int(idx%4), "exhaustive", st, col, "C09")
 				}
 				st.Nontrivial++
+				st.States++
 				if len(t) >= 4 && len(t) <= 12 && idx%8 == 0 {
 					diagSort(t, st)
 				}
@@ -351,6 +352,7 @@ func init() {
 							}
 							checkSort(t, i%4, fam, st, col, "C09")
 							st.Nontrivial++
+							st.States++
 							i++
 							st.Add("structured_texts", 1)
 							st.Max("max_text_len", int64(len(t)))
@@ -376,6 +378,7 @@ func init() {
 							}
 							checkSort(t, i%4, fam, st, col, "C09")
 							st.Nontrivial++
+							st.States++
 							st.Add("tandem_texts", 1)
 							st.Max("max_text_len", int64(len(t)))
 						})
@@ -411,7 +414,7 @@ func init() {
 		},
 		Rule:        "every text of the exhaustive sets and the structured family is one case; all are distinct by construction; non-trivial = every text (each exercises Sort, InvertSA and the three LCP conventions)",
 		Explanation: "suffix.Sort / LCP / InvertSA against naive sorting and naive prefix comparison (linear checker above 64 bytes)",
-		StatesNote:  "there is no state machine here: states is reported as 1; transitions = calls of Sort/InvertSA/LCP on the real code; the deciding step is exhaustive enumeration of the input space up to the stated lengths",
+		StatesNote:  "there is no state machine here: states counts the distinct input texts (each is the initial state of one run of the sort), distinct by construction; transitions = calls of Sort/InvertSA/LCP on the real code; the deciding step is exhaustive enumeration of the input space up to the stated lengths",
 		Assumptions: []string{"texts longer than the bounds and alphabets other than those listed are not explored; ssort.heapSort and trsort.trPartialCopy need adversarial inputs of hundreds of bytes and may be unreached (see coverage note in DESIGN.md)"},
 	})
 }
@@ -560,6 +563,7 @@ func checkSegmentsText(t []byte, st *engine.Stats, col *engine.Collector) {
 		}
 	}
 	st.Nontrivial++
+	st.States++
 }
 
 func c10Sets(tier string) []textSet {
@@ -575,6 +579,7 @@ func init() {
 		Shards: func(tier string) []engine.Shard {
 			return textShards("C10", c10Sets(tier), 7, func(t []byte, idx int64, st *engine.Stats, col *engine.Collector) {
 				checkSegmentsText(t, st, col)
+				st.States++
 				if len(st.Samples) < 2 && len(t) > 5 {
 					st.Sample(map[string]any{"text": string(t), "all (minLen,maxLen) with": "0 <= minLen <= maxLen <= len+1"})
 				}
@@ -602,7 +607,7 @@ func init() {
 		},
 		Rule:        "cases are (text, minLen, maxLen) triples, all distinct by construction; evaluations counts triples, distinct_nontrivial counts texts",
 		Explanation: "suffix.Segments callbacks against brute-force prefix groups: range/sharing, exactly-one coverage of every pair, inner-before-outer order, no panic",
-		StatesNote:  "no state machine: states is reported as 1; transitions = callbacks received + Segments calls",
+		StatesNote:  "no state machine: states counts the distinct texts (each explored with every (minLen,maxLen)); transitions = callbacks received + Segments calls",
 		Assumptions: []string{"texts up to the stated lengths; sa/lcp inputs are always those of a real text"},
 	})
 }
